@@ -6,6 +6,8 @@ import c05
 
 LEAN_MODULE = 'PGM.Properties.C06'
 NEEDS_GENERATED = True
+TRANSLATORS = ('py2lean', 'py2flow', 'py2mstdom')     # py2mstdom: mst.py compress_domain / transform_data / reverse_data / MST -> MstDomG.lean (C06D)
+LEAN_EXTRA = ['PGM.Properties.C06D']
 TRUSTED = ['Lean 4.33 kernel', 'axioms: propext, Classical.choice, Quot.sound',
            'harness/mechrun.py instrumentation (observes release operands / scales / probability vectors from outside and forces outcomes on the neighbour run)',
            'post-processing randomness (synthetic_data, reverse_data) is served from an identically seeded generator in both runs']
